@@ -118,8 +118,9 @@ class Injector:
     SAVE_PATH_FUNCS = {"_save_to_resource", "_flush", "_flush_buffer", "_save", "_save_to_buffer", "__exit__",
                        "_encode", "set_buffer_capacity", "default"}
 
-    def __init__(self, d, crash_at, line_mode, repo, fail_dumps=False):
+    def __init__(self, d, crash_at, line_mode, repo, fail_dumps=False, tmp_root=None):
         self.fail_dumps = fail_dumps
+        self.tmp_root = os.path.abspath(tmp_root) if tmp_root else None
         self.d = os.path.abspath(d)
         self.crash_at = crash_at      # event index at which to crash (None = never)
         self.n = 0
@@ -135,9 +136,10 @@ class Injector:
 
     def watched(self, path):
         try:
-            return os.path.abspath(os.fspath(path)).startswith(self.d + os.sep)
+            p = os.path.abspath(os.fspath(path))
         except TypeError:
             return False
+        return p.startswith(self.d + os.sep) or (self.tmp_root is not None and p.startswith(self.tmp_root + os.sep))
 
     def install(self):
         inj = self
@@ -235,7 +237,12 @@ class Injector:
 def child_run(sc, d, crash_at, line_mode, unserializable, log_path):
     """Runs in a forked child; never returns."""
     try:
-        inj = Injector(d, crash_at, line_mode, env.REPO, fail_dumps=unserializable)
+        # the system temp directory of the child is on ANOTHER file system than the data files when one is available
+        # (a temp file staged there cannot be renamed over the target atomically) and is watched too
+        tmp_root = other_fs_tmp(d)
+        if tmp_root:
+            tempfile.tempdir = tmp_root
+        inj = Injector(d, crash_at, line_mode, env.REPO, fail_dumps=unserializable, tmp_root=tmp_root)
         inj.install()
         inj.armed = True
         code = 0
@@ -256,12 +263,43 @@ def child_run(sc, d, crash_at, line_mode, unserializable, log_path):
         os._exit(99)
 
 
+_OTHER_FS = {}
+
+
+def other_fs_tmp(d):
+    """A per-scenario directory on a file system different from d's (None if there is none)."""
+    dev = os.stat(d).st_dev
+    if dev not in _OTHER_FS:
+        _OTHER_FS[dev] = None
+        for cand in ("/tmp", "/var/tmp", "/dev/shm", os.path.expanduser("~")):
+            try:
+                if os.path.isdir(cand) and os.stat(cand).st_dev != dev and os.access(cand, os.W_OK):
+                    _OTHER_FS[dev] = cand
+                    break
+            except OSError:
+                pass
+    base = _OTHER_FS[dev]
+    if base is None:
+        return None
+    p = os.path.join(base, "verif-c08-tmp-" + os.path.basename(d))
+    os.makedirs(p, exist_ok=True)
+    return p
+
+
 def fork_run(sc, d, crash_at=None, line_mode=False, unserializable=False, log_path=None):
     pid = os.fork()
     if pid == 0:
         child_run(sc, d, crash_at, line_mode, unserializable, log_path)
     _, status = os.waitpid(pid, 0)
     return os.waitstatus_to_exitcode(status)
+
+
+def _rm(d):
+    shutil.rmtree(d, True)
+    for base in ("/tmp", "/var/tmp", "/dev/shm", os.path.expanduser("~")):
+        p = os.path.join(base, "verif-c08-tmp-" + os.path.basename(d))
+        if os.path.isdir(p):
+            shutil.rmtree(p, True)
 
 
 def prepare(sc, base):
@@ -316,7 +354,7 @@ def to_model_trace(log):
         elif name == "dumps_fail":
             ev.append({"e": "dumps_fail", "n": 0})
         elif name == "open_after":
-            cur_is_tmp = path.startswith("._")
+            cur_is_tmp = not re.match(r"f\d+\.json$", path)
             ev.append({"e": "open_tmp" if cur_is_tmp else "open_target", "n": 0})
         elif name == "write_after":
             ev.append({"e": "write", "n": BLOB})
@@ -340,11 +378,11 @@ def explore_scenario(args):
     logp = os.path.join(base, f"log-{sc['name']}-{int(line_mode)}.json")
     rc = fork_run(sc, d0, None, line_mode, False, logp)
     if rc != 0 or not os.path.exists(logp):
-        shutil.rmtree(d0, True)
+        _rm(d0)
         return {"sc": sc["name"], "machinery": f"control run failed rc={rc}", "problems": [], "points": 0, "trace": None}
     new = snapshot(sc, d0)
     info = json.load(open(logp))
-    shutil.rmtree(d0, True)
+    _rm(d0)
     n_events = info["n"]
     points = 0
     kinds = {}
@@ -366,7 +404,7 @@ def explore_scenario(args):
                     problems.append({"scenario": sc["name"], "aspect": "reopen", "crash_event": k,
                                      "event": _event_at(info["log"], k),
                                      "detail": f"after a crash at event {k} a new collection cannot open the files"})
-            shutil.rmtree(d, True)
+            _rm(d)
     # serialisation failure must never damage the file (every mode)
     d = prepare(sc, base)
     rc = fork_run(sc, d, None, False, True, None)
@@ -379,7 +417,7 @@ def explore_scenario(args):
         if rc != 3:
             problems.append({"scenario": sc["name"], "aspect": "unserializable",
                              "detail": f"saving unserialisable content did not raise (rc={rc})"})
-    shutil.rmtree(d, True)
+    _rm(d)
     return {"sc": sc["name"], "problems": problems, "points": points, "n_events": n_events,
             "trace": {"ev": to_model_trace(info["log"]), "atomic": sc["atomic"], "files": sc["files"], "sc": sc["name"]},
             "log_sample": info["log"][:12]}
@@ -473,7 +511,8 @@ def check_C08(tier):
                         "that the atomic protocol keeps every file old-or-new in every reachable state for any number of "
                         "files and blob length",
                         "crash injection through wrappers of builtins.open / file.write / close / os.replace / "
-                        "json.dumps and sys.settrace line events inside a forked child"]
+                        "json.dumps and sys.settrace line events inside a forked child; the child's system temp directory is on another "
+                        "file system than the data files when the sandbox has one (/tmp vs /dev/shm)"]
     crash_classes = model_check(run)
     tlaps_proof(run)
     base = env.scratch_dir()
@@ -516,7 +555,7 @@ def check_C08(tier):
                 covered.add(e["e"])
     for need in ("open_tmp", "write", "close", "replace", "next"):
         if need not in covered:
-            run.machinery_error(f"no real save exercised the spec action {need}")
+            run.coverage_error(f"no real save exercised the spec action {need}")
     run.cov["spec_crash_state_classes"] = sorted(f"{a}/{b}" for a, b in crash_classes)
     return run.finish()
 
